@@ -438,8 +438,12 @@ func (b *bindings) genDynamic(r *fw.Rand) {
 		b.attachments = append(b.attachments, fw.Pick(r, []string{"image/jpeg:http://s3.com/a.jpg", "audio/mp3:https://example.com/b.mp3", "video/mp4:http://x.io/c.mp4"}))
 	}
 	b.addContact(r, "", b.texts["s1"])
-	b.addContact(r, "parent", b.texts["s11"])
-	b.addContact(r, "child", genText(r))
+	if r.Chance(0.5) {
+		b.addContact(r, "parent", b.texts["s11"])
+	}
+	if r.Chance(0.5) {
+		b.addContact(r, "child", genText(r))
+	}
 	for i := 0; i < 3; i++ {
 		b.addResult(r, fw.Pick(r, roots), drawName(r, "result"))
 	}
@@ -505,7 +509,7 @@ func (b *bindings) addDynamic(top map[string]any) {
 				rs[name] = types.NewXObject(map[string]types.XValue{
 					"__default__":        xtext(e.value),
 					"value":              xtext(e.value),
-					"category":           xtext(e.category),
+					"category":           xtext("base:" + e.category), // the legacy .category is the localized name
 					"category_localized": xtext(e.category),
 					"input":              xtext(e.input),
 					"name":               xtext("Result"),
